@@ -4,8 +4,8 @@
   mirrors: lightmotif/src/dense.rs::DenseMatrix::{new, with_capacity, resize, from_rows, fill,
            Index/IndexMut<usize>, Index/IndexMut<MatrixCoordinates>, iter, iter().rev(), iter_mut,
            clone, eq, stride} and `struct Row` (`repr(align(32))` on x86-64, 16 elsewhere)
-  Cells are bit patterns (`Nat`); the default value of every element type used (u8, u32, f32, i64)
-  has bit pattern 0.
+  Cells are bit patterns (`Nat`); `dflt` is the bit pattern of the element type's `Default` value
+  (0 for u8, u32, f32, i64; 4 for the library's own `Nucleotide`, whose default is the wildcard `N`).
 -/
 import LMV.Model.Mat
 
@@ -23,6 +23,7 @@ inductive Op
   | iterMutSet (v : Nat)                    -- `for (k, row) in m.iter_mut().enumerate() { row[0] = v + k % 2 }`
   | iterMutRevSet (v : Nat)                 -- `for (k, row) in m.iter_mut().rev().enumerate() { row[0] = v + k % 2 }`
   | clone                                   -- continue with `m.clone()`
+  | cloneFrom (rows v : Nat)                -- `m.clone_from(&b)` with `b = new(rows)` filled with `v`
 deriving Repr
 
 variable {C : Nat}
@@ -32,10 +33,10 @@ def writeRow (m : Mat Nat C) (i : Nat) (vals : List Nat) : Mat Nat C :=
   (List.range C).foldl (fun d j => d.set i j (vals.getD j 0)) m
 
 /-- one operation; `Except.error` = the Rust call panics (the object is left as it was) -/
-def step (m : Mat Nat C) : Op → Except String (Mat Nat C)
-  | .new rows => .ok ((Mat.empty : Mat Nat C).resize rows 0)
-  | .withCapacity rows _ => .ok ((Mat.empty : Mat Nat C).resize rows 0)
-  | .resize n => .ok (m.resize n 0)
+def step (dflt : Nat) (m : Mat Nat C) : Op → Except String (Mat Nat C)
+  | .new rows => .ok ((Mat.empty : Mat Nat C).resize rows dflt)
+  | .withCapacity rows _ => .ok ((Mat.empty : Mat Nat C).resize rows dflt)
+  | .resize n => .ok (m.resize n dflt)
   | .fromRows rows =>
     -- `uninitialized(len)` then `dense[i].copy_from_slice(row)`: panics on a row of the wrong length
     if rows.all (·.length == C) then
@@ -55,13 +56,14 @@ def step (m : Mat Nat C) : Op → Except String (Mat Nat C)
     if C = 0 then .error "index out of bounds" else
     .ok ((List.range m.rows).foldl (fun d k => d.set (m.rows - 1 - k) 0 (v + k % 2)) m)
   | .clone => .ok m
+  | .cloneFrom rows v => .ok (((Mat.empty : Mat Nat C).resize rows dflt).fill v)
 
 /-- run an operation list; a panicking operation leaves the matrix unchanged -/
-def run (m : Mat Nat C) : List Op → Mat Nat C
+def run (dflt : Nat) (m : Mat Nat C) : List Op → Mat Nat C
   | [] => m
-  | op :: ops => match step m op with
-    | .ok m' => run m' ops
-    | .error _ => run m ops
+  | op :: ops => match step dflt m op with
+    | .ok m' => run dflt m' ops
+    | .error _ => run dflt m ops
 
 /-! ### layout arithmetic of `Row<T, C>` with `repr(align(A))` -/
 
